@@ -455,6 +455,7 @@ CODE_TEXT = {
     1203: 'Ready() differs from the registry model', 1204: 'AllReverseTunnels() differs from the registry model', 1205: 'open/close callback not exactly once, in order', 1206: 'WaitForReady still blocked although a matching tunnel is registered', 1207: 'n RPCs over n keyed tunnels did not use each tunnel once',
     1208: 'AllReverseTunnels returned the same tunnel twice',
     212: 'an RPC the server refused ended at the caller with a result other than the status of the close frame handed to its endpoint',
+    1404: 'the client stream table still holds an entry for an RPC whose caller has been given a status as its terminal result (raw tunnel server)',
     1607: 'the caller of a method with a non-streaming response was told success although no close_stream had been handed to its endpoint',
     1320: 'the frames the tunnel client emitted on a stream leave the grammar of the per-RPC model (Rpc.v gc_step): frame before new_stream, second new_stream, request data after half-close, second half-close or second cancel',
     1321: 'the frames the tunnel server emitted on a stream leave the grammar of the per-RPC model (Rpc.v gs_step): message before headers, headers twice, second close_stream or a frame other than a late window update after close_stream',
